@@ -321,6 +321,55 @@ example :
     b.feats = [[2, 3], [1, 0]] ∧ b.alis = some [[8, 9], [7, -100]] ∧ b.refs = some [[4, -100], [5, 6]]
       ∧ b.featSizes = [2, 1] ∧ b.refSizes = some [1, 2] ∧ b.uttids = ["b", "a"] := by decide
 
+theorem map_length_of_map_some {σ κ : Type} (f : σ → Option (List κ)) (g : σ → Nat) :
+    ∀ (s : List σ) (al : List (List κ)), s.map f = al.map some →
+      (∀ it ∈ s, ∀ x, f it = some x → x.length = g it) → al.map List.length = s.map g := by
+  intro s
+  induction s with
+  | nil => intro al h _; cases al <;> simp_all
+  | cons it s ih =>
+    intro al h hl
+    cases al with
+    | nil => simp at h
+    | cons a al =>
+      simp only [List.map_cons, List.cons.injEq] at h ⊢
+      exact ⟨hl it (by simp) a h.1, ih al h.2 (fun it' hi => hl it' (by simp [hi]))⟩
+
+/-- **C14_collate_spect_reported** (audit): `spect_seq_to_batch` reports NO size vector for `alis`; the size a
+reader has for them is `feat_sizes`. `C14_collate_spect` cuts `alis` back to the alignments' own lengths (which
+the batch does not contain). For a data set in which every alignment is as long as its feature matrix (what
+`validate_spect_data_set` demands) the reported `feat_sizes` do the job: `alis` cut back to `feat_sizes` are the
+utterances' alignments along the same arrangement `s` as the ids, and every cell beyond holds the pad value. -/
+theorem C14_collate_spect_reported {φ α ρ ι : Type} [DecidableEq φ] [DecidableEq α] [DecidableEq ρ]
+    (padF : φ) (padA : α) (padR : ρ) (sort : Bool) (items : List (SpectItem φ α ρ ι))
+    (hali : ∀ it ∈ items, ∀ x, it.ali = some x → x.length = it.feat.length)
+    (a : List (List α)) (ha : (spectCollate padF padA padR sort items).alis = some a) :
+    ∃ s : List (SpectItem φ α ρ ι), s.Perm items ∧
+      (spectCollate padF padA padR sort items).uttids = s.map (·.uttid) ∧
+      (cutBack a (spectCollate padF padA padR sort items).featSizes).map some = s.map (·.ali) ∧
+      padCellsOk padA a (spectCollate padF padA padR sort items).featSizes = true := by
+  obtain ⟨s, hperm, _, _, hfs, hid, _, _, hal, _⟩ := C14_collate_spect padF padA padR sort items
+  obtain ⟨al, h1, h2, h3⟩ := hal a ha
+  have hlen : al.map List.length = s.map (·.feat.length) :=
+    map_length_of_map_some (fun it : SpectItem φ α ρ ι => it.ali) (fun it => it.feat.length) s al h1
+      (fun it hi x hx => hali it (hperm.subset hi) x hx)
+  refine ⟨s, hperm, hid, ?_, ?_⟩
+  · rw [hfs, ← hlen, h2, h1]
+  · rw [hfs, ← hlen]; exact h3
+
+/-- Non-vacuity: two utterances, alignments as long as the features, sorted. -/
+example : ∃ s : List (SpectItem Int Int Int String), s.Perm [⟨[1], some [7], none, "a"⟩, ⟨[2, 3], some [8, 9], some [4], "b"⟩] ∧
+    (spectCollate (0 : Int) (-100 : Int) (-100 : Int) true
+      [⟨[1], some [7], none, "a"⟩, ⟨[2, 3], some [8, 9], some [4], "b"⟩]).uttids = s.map (·.uttid) ∧
+    (cutBack [[8, 9], [7, -100]] (spectCollate (0 : Int) (-100 : Int) (-100 : Int) true
+      [⟨[1], some [7], none, "a"⟩, ⟨[2, 3], some [8, 9], some [4], "b"⟩]).featSizes).map some = s.map (·.ali) ∧
+    padCellsOk (-100 : Int) [[8, 9], [7, -100]] (spectCollate (0 : Int) (-100 : Int) (-100 : Int) true
+      [⟨[1], some [7], none, "a"⟩, ⟨[2, 3], some [8, 9], some [4], "b"⟩]).featSizes = true :=
+  C14_collate_spect_reported 0 (-100) (-100) true _ (by
+    intro it hit x hx
+    simp only [List.mem_cons, List.not_mem_nil, or_false] at hit
+    rcases hit with rfl | rfl <;> simp at hx <;> subst hx <;> rfl) _ (by decide)
+
 /-- **C14_collate (context_window_seq_to_batch)**: splitting the concatenated windows (and
 alignments) by the reported sizes returns every utterance's windows, ids in order. -/
 theorem C14_collate_cw {ω α ι : Type} (items : List (List ω × Option (List α) × ι)) :
@@ -659,6 +708,29 @@ example : loaderLen [3, 1, 4, 1, 5, 9, 2] 2 2 false false [0, 1, 2, 3, 4, 5, 6] 
 example : loaderBatches [3, 1, 4, 1, 5, 9, 2] 1 3 false true [6, 5, 4, 3, 2, 1, 0]
     = .ok ([[6, 5, 4], [3, 2, 1]], none) := by rfl
 
+/-- **C14_loader_ok** (audit; non-vacuity of every loader-level hypothesis `… = .ok (bs, none)`): with length
+buckets, a non-empty data set, `batch_size ≥ 1` and bucket parameters that could be computed (no zero-length bound
+under dynamic sizing), the pass over ANY order of valid data-set indices ends without an exception: the maps
+`_get_bucket_batch_sampler_params` returns are well-formed for the sampler (`C14_pure` feeds `C14_wellformed_ok`). -/
+theorem C14_loader_ok (lens : List Nat) (nb B : Nat) (dynamic drop : Bool) (order : List Nat)
+    (p : BucketParams) (hB : 0 < B) (hN : lens ≠ []) (hnb : nb > 1)
+    (hp : bucketParams lens nb B dynamic = .ok p) (hord : ∀ x ∈ order, x < lens.length) :
+    ∃ bs, loaderBatches lens nb B dynamic drop order = .ok (bs, none) := by
+  obtain ⟨_, hi2b, hsz, hge, _⟩ := C14_pure lens nb B dynamic p hp hN
+  have wf : WellFormed (fun i => p.idx2bucket[i]?) (fun h => p.sizes[h]?) order := by
+    intro x hx
+    have hlt := hord x hx
+    obtain ⟨j, hj, hjlt, _, _⟩ := hi2b x lens[x] (List.getElem?_eq_getElem hlt)
+    have hjs : j < p.sizes.length := by rw [hsz]; exact hjlt
+    refine ⟨j, p.sizes[j], hj, List.getElem?_eq_getElem hjs, ?_⟩
+    have := hge j p.sizes[j] (List.getElem?_eq_getElem hjs)
+    omega
+  obtain ⟨bs, hbs⟩ := C14_wellformed_ok _ _ drop order wf
+  exact ⟨bs, by simp [loaderBatches, hnb, hp, hbs]⟩
+
+example : ∃ bs, loaderBatches [3, 1, 4, 1, 5, 9, 2] 2 2 true false [6, 0, 5, 5, 1] = .ok (bs, none) :=
+  C14_loader_ok _ _ _ _ _ _ ⟨[2, 9], [1, 0, 1, 0, 1, 1, 0], [9, 2]⟩ (by decide) (by simp) (by decide) rfl (by decide)
+
 /-! ## loaders: identical (seed, epoch) ⇒ identical batches; which epoch `len(loader)` refers to
 
 The loader object (`Loader`, in `Model/Batching.lean`) holds its constructor arguments and C13's
@@ -721,7 +793,9 @@ theorem C14_seed_epoch (perm : Nat → List Nat) (cfg : LoaderCfg) (sc : EpochSa
     rw [h1, h2]
   exact ⟨key ops₁ e₁, (key ops₂ e₂).trans (key ops₁ e₁).symm⟩
 
-/-- The same with the seed explicit: `src seed epoch` is the ordering drawn for (seed, epoch). -/
+/-- The same with the seed explicit: `src seed epoch` is the ordering drawn for (seed, epoch).
+(Audit: the second conjunct of `C14_seed_epoch` at `perm := src seed`, nothing more - kept as a reading aid,
+NOT counted as an obligation.) -/
 theorem C14_seed_epoch_src (src : Nat → Nat → List Nat) (seed : Nat) (cfg : LoaderCfg)
     (sc : EpochSampler.Config) (ops₁ ops₂ : List Op) (e₁ e₂ e : Nat) :
     ((((Loader.exec (src seed) ops₂ ⟨cfg, ⟨sc, e₂⟩⟩).2).setEpoch e).serve (src seed)).1
@@ -837,6 +911,28 @@ example : (exLoader.serve exPerm).2.len exPerm = .ok 1 := by
     EpochSampler.everyNth, exLoader, exPerm, exCfg]
   rfl
 
+/-! all hypotheses of the `len` theorems together, on `exLoader` -/
+theorem exLoader_serve0 : (exLoader.serve exPerm).1 = .ok ([[1], [4]], none) := by
+  simp [Loader.serve, EpochSampler.iter, EpochSampler.samples, EpochSampler.islice,
+    EpochSampler.everyNth, exLoader, exPerm, exCfg]
+  rfl
+
+theorem exPerm_len : ∀ e, (exPerm e).length = exLoader.sampler.cfg.total := by
+  intro e; unfold exPerm; split <;> rfl
+
+/-- all four hypotheses of `C14_len_epoch` together -/
+example : exLoader.len exPerm = .ok 2 :=
+  C14_len_epoch exPerm exLoader [[1], [4]] (by decide) (by simp [exLoader, EpochSampler.Config.Wf])
+    (exPerm_len _) exLoader_serve0
+
+/-- `C14_len_tracks_epoch` after one pass: `len` speaks about epoch 1 (one batch), not epoch 0 (two) -/
+example : (Loader.exec exPerm [.serve] exLoader).2.len exPerm = .ok 1 :=
+  C14_len_tracks_epoch exPerm exLoader [.serve] [[2, 3]] (by decide) (by simp [exLoader, EpochSampler.Config.Wf])
+    exPerm_len (by
+      simp [Loader.exec, Loader.serve, EpochSampler.iter, EpochSampler.samples, EpochSampler.islice,
+        EpochSampler.everyNth, exLoader, exPerm, exCfg]
+      rfl)
+
 /-! ## loaders: several live iterators, `len()` and look-ups in between (value semantics)
 
 `Session` (in `Model/Batching.lean`) = the loader object + the `iter(loader)` objects created so
@@ -903,7 +999,10 @@ theorem C14_live_iter_value (perm : Nat → List Nat) : ∀ (ops : List IOp) (s 
 /-- **C14_session_epoch** (which operation touches the loader, and how): `loader.epoch = e` sets the
 counter; a full pass and the FIRST `next` of an iterator advance it by one; `iter(loader)`, `len()`,
 `get_samples_for_epoch`, a `next` on a started (or exhausted) iterator leave the loader exactly as
-it was - `len()` and the look-up leave the whole session as it was. -/
+it was - `len()` and the look-up leave the whole session as it was.
+(Audit: DEFINITIONAL - five of the eight clauses are `rfl`, the other three unfold `Session.step` under the
+stated look-up; this is the definition of `Session.step` read aloud, whether the CODE moves its counter there is
+correspondence. Kept as documentation of the model, NOT counted as an obligation.) -/
 theorem C14_session_epoch (perm : Nat → List Nat) (s : Session) :
     (∀ e, (Session.step perm (.setEpoch e) s).2.loader = s.loader.setEpoch e) ∧
     (Session.step perm .serve s).2.loader = s.loader.setEpoch (s.loader.epoch + 1) ∧
@@ -1146,4 +1245,27 @@ example : exCfg.drop = false ∧ 0 < exCfg.B := by decide
 example : (Session.new exLoader).iters[0]? = none := rfl
 example : IOp.next 0 ∉ [IOp.len, IOp.peek 1, IOp.newIter, IOp.next 1] := by decide
 
+/-! the interleaving theorems applied (all hypotheses together) -/
+/-- `C14_len_interleaved`: an iterator alive and half consumed (it took epoch 0), `len()` speaks about epoch 1 -/
+example : Session.step exPerm .len (Session.exec exPerm [.newIter, .next 0, .peek 0] (Session.new exLoader)).2
+    = (.len (.ok 1), (Session.exec exPerm [.newIter, .next 0, .peek 0] (Session.new exLoader)).2) :=
+  C14_len_interleaved exPerm exLoader [.newIter, .next 0, .peek 0] [[2, 3]] (by decide)
+    (by simp [exLoader, EpochSampler.Config.Wf]) exPerm_len (by
+      simp [Session.exec, Session.step, Session.new, Loader.serve, EpochSampler.iter, EpochSampler.samples,
+        EpochSampler.islice, EpochSampler.everyNth, exLoader, exPerm, exCfg]
+      rfl)
+
+/-- `C14_iter_epoch`: iterator 0 exists, has not been asked yet; a `len()` and a look-up come first -/
+example := C14_iter_epoch exPerm ⟨exLoader, [⟨none, 0⟩]⟩ 0 0 [.len, .peek 1, .setEpoch 1] [.next 0, .newIter, .next 0]
+  rfl (by decide)
+
+/-- `C14_live_iter_value`: iterator 0 started with the value of epoch 0 and one batch handed out -/
+example := C14_live_iter_value exPerm [.next 0, .serve, .setEpoch 0, .newIter, .next 1, .next 0]
+  ⟨exLoader, [⟨some (.ok ([[1], [4]], none)), 1⟩]⟩ 0 (.ok ([[1], [4]], none)) 1 rfl
+
+/-- `C14_interleaved_cover` with a non-empty `pre` (an older iterator alive), `post` advancing both -/
+example := C14_interleaved_cover exPerm exCfg ⟨5, 5, 1, 3⟩ [.newIter, .next 0] [.next 1, .next 0, .len, .next 1] 3 0
+  [[1], [4]] (by decide) rfl (by
+    simp [epochBatches, EpochSampler.samples, EpochSampler.islice, EpochSampler.everyNth, exPerm, exCfg]
+    rfl) (by decide)
 end PdtVerif.Batching
